@@ -51,3 +51,10 @@ static_assert(std::is_constructible<nostd::unique_ptr<WB>, nostd::unique_ptr<WD>
 static_assert(!std::is_constructible<nostd::unique_ptr<WD>, nostd::unique_ptr<WB> &&>::value, "W21 no base-to-derived conversion");
 // W22: function_ref is a non-owning, trivially copyable reference
 static_assert(std::is_trivially_copyable<nostd::function_ref<int(int)>>::value, "W22 function_ref must be trivially copyable");
+// W23/W24: copying a function_ref from a non-const lvalue (or rvalue) selects the trivial copy/move constructor, not the
+// converting template (which would bind the copy to the source handle instead of the callable)
+static_assert(std::is_trivially_constructible<nostd::function_ref<int(int)>, nostd::function_ref<int(int)> &>::value,
+              "W23 copying a non-const lvalue function_ref must use the copy constructor, not the converting template");
+static_assert(std::is_trivially_constructible<nostd::function_ref<int(int)>, nostd::function_ref<int(int)> &&>::value &&
+                  std::is_trivially_constructible<nostd::function_ref<int(int)>, const nostd::function_ref<int(int)> &>::value,
+              "W24 copying a const lvalue / rvalue function_ref must use the copy/move constructor");
